@@ -842,50 +842,110 @@ func (f *limFn) errorExit(cond ast.Expr, neg bool) {
 	f.steps = append(f.steps, limStep{kind: "test", a: f.condText(cond, neg)})
 }
 
+// lhsIdents: the identifiers on the left of an assignment.
+func lhsIdents(st ast.Stmt) map[string]bool {
+	out := map[string]bool{}
+	if as, ok := st.(*ast.AssignStmt); ok {
+		for _, l := range as.Lhs {
+			if id, ok := l.(*ast.Ident); ok {
+				out[id.Name] = true
+			}
+		}
+	}
+	return out
+}
+
+// propagates: `if x != nil { …; return error }` (no else) for one of the given variables.
+func (f *limFn) propagates(st ast.Stmt, vars map[string]bool) bool {
+	v, ok := st.(*ast.IfStmt)
+	if !ok || v.Else != nil || !f.isErrorReturn(v.Body) {
+		return false
+	}
+	be, ok := v.Cond.(*ast.BinaryExpr)
+	if !ok || be.Op != token.NEQ {
+		return false
+	}
+	id, ok := be.X.(*ast.Ident)
+	nl, ok2 := be.Y.(*ast.Ident)
+	return ok && ok2 && nl.Name == "nil" && vars[id.Name]
+}
+
+func hasGate(steps []limStep) bool {
+	for _, s := range steps {
+		if s.kind == "guard" || s.kind == "test" {
+			return true
+		}
+	}
+	return false
+}
+
+// scanInto appends the steps found in n.  Guards and tests can only come out of a helper that was
+// followed; they count as guards of THIS function only where the helper's error result is propagated
+// unconditionally (allowGates).  A size or deadline check that is skipped under a condition, run in a
+// loop, or whose result is dropped is not a guard: the generator refuses it.
+func (f *limFn) scanInto(n ast.Node, allowGates bool, where string) {
+	steps := f.scan(n)
+	if !allowGates && hasGate(steps) {
+		f.fail("a check made by a helper is not applied unconditionally (%s): %s", where, f.raw(n))
+		return
+	}
+	f.steps = append(f.steps, steps...)
+}
+
 func (f *limFn) block(list []ast.Stmt) {
 	if f.reassigned == nil {
 		f.reassigned = map[string]bool{}
 		f.demoteReassigned(list)
 	}
-	for _, st := range list {
+	for i, st := range list {
 		if f.err != nil {
 			return
 		}
 		switch v := st.(type) {
 		case *ast.IfStmt:
+			elseBlock, _ := v.Else.(*ast.BlockStmt)
+			thenErr := f.isErrorReturn(v.Body) && (v.Else == nil || elseBlock != nil)
+			elseErr := !thenErr && elseBlock != nil && f.isErrorReturn(elseBlock)
+			if !thenErr && !elseErr {
+				// a conditional without an error exit: its steps (if any) in source order; no guards in there
+				f.nested(v, "inside a conditional")
+				continue
+			}
 			if v.Init != nil {
-				f.steps = append(f.steps, f.scan(v.Init)...)
+				allow := thenErr && v.Else == nil && f.propagates(&ast.IfStmt{Cond: v.Cond, Body: v.Body}, lhsIdents(v.Init))
+				f.scanInto(v.Init, allow, "result not propagated")
 				f.define(v.Init)
 				f.demote()
 			}
-			elseBlock, _ := v.Else.(*ast.BlockStmt)
-			switch {
-			case f.isErrorReturn(v.Body) && v.Else == nil:
-				f.steps = append(f.steps, f.scan(v.Cond)...)
+			f.scanInto(v.Cond, false, "inside a condition")
+			if thenErr {
 				f.errorExit(v.Cond, false)
-			case f.isErrorReturn(v.Body) && elseBlock != nil:
-				f.steps = append(f.steps, f.scan(v.Cond)...)
-				f.errorExit(v.Cond, false)
-				f.block(elseBlock.List)
-			case elseBlock != nil && f.isErrorReturn(elseBlock):
-				f.steps = append(f.steps, f.scan(v.Cond)...)
+				if elseBlock != nil {
+					f.block(elseBlock.List)
+				}
+			} else {
 				f.errorExit(v.Cond, true)
 				f.block(v.Body.List)
-			default:
-				// a conditional without an error exit: its steps (if any) in source order
-				f.nested(v)
 			}
 		case *ast.BlockStmt:
 			f.block(v.List)
+		case *ast.AssignStmt:
+			if i+1 < len(list) && f.propagates(list[i+1], lhsIdents(v)) {
+				f.define(v)
+				f.demote()
+				f.scanInto(v, true, "")
+			} else {
+				f.nested(st, "result not propagated")
+			}
 		default:
-			f.nested(st)
+			f.nested(st, "inside a compound statement")
 		}
 	}
 }
 
 // nested: a statement taken as a whole (its inner locals are registered first, so that effect
 // arguments are normalised consistently).
-func (f *limFn) nested(st ast.Stmt) {
+func (f *limFn) nested(st ast.Stmt, where string) {
 	ast.Inspect(st, func(x ast.Node) bool {
 		if _, ok := x.(*ast.FuncLit); ok {
 			return false
@@ -896,7 +956,7 @@ func (f *limFn) nested(st ast.Stmt) {
 		return true
 	})
 	f.demote()
-	f.steps = append(f.steps, f.scan(st)...)
+	f.scanInto(st, false, where)
 }
 
 func (f *limFn) demote() {
